@@ -188,6 +188,7 @@ ModelVerdict ==
      \cup V("TransposeIsTranspose", ReqTranspose(S, c, x0, fc))
      \cup V("TransposeInvolution", r = "transpose" => SameArr(TransposeC(S, fc), x0))
      \cup V("DriftUnchanged", ReqDriftUnchanged(S, c, x0, fc))
+     \cup V("DriftDisplayed", r = "drift" => DriftShown(S, x0) = DriftDef(S, x0))
      \cup V("ExpandIsDefinition", ReqExpand(S, c, x0, fc))
      \cup V("CompactFullCompact", r = "expand" => SameArr(ToCompact(S, fc), x0))
      \cup V("ToCompactIsDefinition", ReqToCompact(S, c, x0, fc))
@@ -229,6 +230,7 @@ InvPyEqC == "PyEqC" \notin verdict
 InvTransposeIsTranspose == "TransposeIsTranspose" \notin verdict
 InvTransposeInvolution == "TransposeInvolution" \notin verdict
 InvDriftUnchanged == "DriftUnchanged" \notin verdict
+InvDriftDisplayed == "DriftDisplayed" \notin verdict
 InvExpandIsDefinition == "ExpandIsDefinition" \notin verdict
 InvCompactFullCompact == "CompactFullCompact" \notin verdict
 InvToCompactIsDefinition == "ToCompactIsDefinition" \notin verdict
